@@ -136,7 +136,7 @@ package db
 //@ func (*db.Database).resolveDirty
 //@   props C08 C15 C09
 //@   opt no-type-invariant=db.Database
-//@   modifies * -M:S_db_KeyCol hdr_valid hdr_ps hdr_cookie jr_pos peer_state
+//@   modifies * -M:S_db_KeyCol -M:S_sqlittle_columnIndex hdr_valid hdr_ps hdr_cookie jr_pos peer_state
 //@   requires db != nil && db.l != nil && db.btreeCache != nil && db.btreeCache.elem != nil
 //@   requires db.header != nil ==> CACHE_OK(db) && legal_ps(db.header.PageSize)
 //@   requires db.header == nil ==> db.dirty && (forall q int :: !has(db.btreeCache.elem, q))
@@ -153,7 +153,7 @@ package db
 
 //@ func (*db.Database).openPage
 //@   props C08 C15 C01 C02 C12
-//@   modifies * -M:S_db_KeyCol hdr_valid hdr_ps hdr_cookie jr_pos peer_state
+//@   modifies * -M:S_db_KeyCol -M:S_sqlittle_columnIndex hdr_valid hdr_ps hdr_cookie jr_pos peer_state
 //@   requires db != nil
 //@   ensures [clean] err == nil ==> !db.dirty && db.header != nil && db.header.ChangeCounter == cc_now
 //@   ensures [current] err == nil ==> r0 != nil && repr(r0, page, db.header.ChangeCounter)
@@ -174,7 +174,7 @@ package db
 //@ func (*db.Database).master
 //@   props C08 C12 C05 C01
 //@   uses table_tree
-//@   modifies * -M:S_db_KeyCol hdr_valid hdr_ps hdr_cookie jr_pos peer_state
+//@   modifies * -M:S_db_KeyCol -M:S_sqlittle_columnIndex hdr_valid hdr_ps hdr_cookie jr_pos peer_state
 //@   requires db != nil
 //@   ghost-entry cur_tree = tree_of(1)
 //@   ghost-entry pos = p_lo(1)
@@ -195,29 +195,32 @@ package db
 
 //@ func (*db.Database).Table
 //@   props C08 C05 C01
-//@   modifies * -M:S_db_KeyCol hdr_valid hdr_ps hdr_cookie jr_pos peer_state
+//@   modifies * -M:S_db_KeyCol -M:S_sqlittle_columnIndex hdr_valid hdr_ps hdr_cookie jr_pos peer_state
 //@   requires db != nil
 //@   ensures err == nil ==> r0 != nil && r0.db == db && hdr_valid
+//@   trusted-ensures [root] err == nil ==> tree_of(r0.root) == r0.root
 
 //@ func (*db.Database).NonRowidTable
 //@   props C08 C05 C01
-//@   modifies * -M:S_db_KeyCol hdr_valid hdr_ps hdr_cookie jr_pos peer_state
+//@   modifies * -M:S_db_KeyCol -M:S_sqlittle_columnIndex hdr_valid hdr_ps hdr_cookie jr_pos peer_state
 //@   requires db != nil
 //@   ensures err == nil ==> r0 != nil && r0.db == db && hdr_valid
+//@   trusted-ensures [root] err == nil ==> tree_of(r0.root) == r0.root
 
 //@ func (*db.Database).Index
 //@   props C08 C05 C02
-//@   modifies * -M:S_db_KeyCol hdr_valid hdr_ps hdr_cookie jr_pos peer_state
+//@   modifies * -M:S_db_KeyCol -M:S_sqlittle_columnIndex hdr_valid hdr_ps hdr_cookie jr_pos peer_state
 //@   requires db != nil
 //@   ensures err == nil ==> r0 != nil && r0.db == db && hdr_valid
+//@   trusted-ensures [root] err == nil ==> tree_of(r0.root) == r0.root
 
 //@ func (*db.Database).objectNames
 //@   props C08 C05
-//@   modifies * -M:S_db_KeyCol hdr_valid hdr_ps hdr_cookie jr_pos peer_state
+//@   modifies * -M:S_db_KeyCol -M:S_sqlittle_columnIndex hdr_valid hdr_ps hdr_cookie jr_pos peer_state
 //@   requires db != nil
 
 //@ func db.newDatabase
 //@   props C08 C15 C05
-//@   modifies * -M:S_db_KeyCol hdr_valid hdr_ps hdr_cookie jr_pos peer_state
+//@   modifies * -M:S_db_KeyCol -M:S_sqlittle_columnIndex hdr_valid hdr_ps hdr_cookie jr_pos peer_state
 //@   requires l != nil
 //@   ensures [open] r1 == nil ==> r0 != nil && !r0.dirty && r0.header != nil && legal_ps(r0.header.PageSize) && r0.header.ChangeCounter == cc_now && hdr_valid
